@@ -20,6 +20,7 @@ from datetime import datetime as _real_datetime
 
 WORLD_ROOTS = ("cwd", "tmp", "alt-tmp", "in")
 NAME_ALPHABET = "abcdefghijklmnopqrstuvwxyz0123456789_"
+PROBE_PREFIX = "pr0be"  # names of tempfile's own writability probe (tempfile._get_default_tempdir)
 
 
 class CoordinatorGone(BaseException):
@@ -49,14 +50,15 @@ class _ScanIter:
 class SeededNames:
     """Replacement for tempfile._RandomNameSequence."""
 
-    def __init__(self, seed):
+    def __init__(self, seed, prefix=""):
         self.rng = random.Random(f"names:{seed}")
+        self.prefix = prefix
 
     def __iter__(self):
         return self
 
     def __next__(self):
-        return "".join(self.rng.choice(NAME_ALPHABET) for _ in range(8))
+        return self.prefix + "".join(self.rng.choice(NAME_ALPHABET) for _ in range(8 - len(self.prefix)))
 
 
 class FileProxy:
@@ -235,10 +237,21 @@ class ChildSeams:
         self.fdmap: dict[int, str] = {}
         self.o: dict[str, object] = {}
         self.nevents = 0
+        self.last = None  # natural outcome (0 / errno) of the real call made after the previous event
+
+    def call(self, fn, *a, **kw):
+        try:
+            res = fn(*a, **kw)
+        except OSError as e:
+            self.last = e.errno or -1
+            raise
+        self.last = 0
+        return res
 
     # ------------------------------------------------------------ protocol
     def ask(self, op, path, on_err=None, **kw):
-        msg = {"p": self.proc, "op": op, "path": path}
+        msg = {"p": self.proc, "op": op, "path": path, "r": self.last}
+        self.last = None
         if kw:
             msg.update(kw)
         self.nevents += 1
@@ -263,6 +276,7 @@ class ChildSeams:
         return d
 
     def tell(self, msg):
+        msg["r"] = self.last
         try:
             self.sock.sendall(json.dumps(msg).encode() + b"\n")
         except OSError:
@@ -322,7 +336,7 @@ class ChildSeams:
                 return o["open"](file, mode, buffering, encoding, errors, newline, closefd, opener)
             writing = any(c in mode for c in "wax+")
             S.ask("open-w" if writing else "open-r", rel, mode=mode)
-            f = o["open"](file, mode, buffering, encoding, errors, newline, closefd, opener)
+            f = S.call(o["open"], file, mode, buffering, encoding, errors, newline, closefd, opener)
             return FileProxy(S, f, rel, writing)
 
         builtins.open = p_open
@@ -337,7 +351,7 @@ class ChildSeams:
                 if rel is None:
                     return orig(path, *a, **kw)
                 S.ask(op, rel)
-                return orig(path, *a, **kw)
+                return S.call(orig, path, *a, **kw)
 
             w.__name__ = name
             setattr(os, name, w)
@@ -361,7 +375,7 @@ class ChildSeams:
                 if rs is None and rd is None:
                     return _orig(src, dst, *a, **kw)
                 S.ask("rename", rs or "<outside>", dst=rd or "<outside>")
-                return _orig(src, dst, *a, **kw)
+                return S.call(_orig, src, dst, *a, **kw)
 
             setattr(os, name, wr)
 
@@ -387,7 +401,7 @@ class ChildSeams:
                 else:
                     op = "open-r"
             S.ask(op, rel)
-            fd = o["os_open"](path, flags, mode, dir_fd=dir_fd)
+            fd = S.call(o["os_open"], path, flags, mode, dir_fd=dir_fd)
             S.fdmap[fd] = rel
             return fd
 
@@ -407,7 +421,7 @@ class ChildSeams:
             if rel is None:
                 return o["scandir"](path)
             d = S.ask("scandir", rel)
-            with o["scandir"](path) as it:
+            with S.call(o["scandir"], path) as it:
                 entries = sorted(it, key=lambda e: e.name)
             perm = d.get("perm", 0)
             if perm:
@@ -422,7 +436,7 @@ class ChildSeams:
             if rel is None:
                 return o["listdir"](path)
             d = S.ask("scandir", rel)
-            names = sorted(o["listdir"](path))
+            names = sorted(S.call(o["listdir"], path))
             perm = d.get("perm", 0)
             if perm:
                 random.Random(perm).shuffle(names)
@@ -438,6 +452,7 @@ class ChildSeams:
 
         nseed = self.cfg.get("name_seed", self.proc)
         tempfile._name_sequence = SeededNames(nseed)
+        tempfile._RandomNameSequence = lambda: SeededNames(f"{nseed}:probe", PROBE_PREFIX)  # used by _get_default_tempdir
         tempfile.tempdir = None
         cands = [self.world + "/tmp", self.world + "/alt-tmp", self.world + "/cwd"]
         tempfile._candidate_tempdir_list = lambda: list(cands)
